@@ -45,7 +45,23 @@ fn summarise_local(tcx: TyCtxt<'_>, dir: &str) {
             continue;
         }
         let path = tcx.def_path_str(did);
-        if pats.iter().any(|p| path.contains(p)) {
+        // `trait:<prefix>` selects every method of an impl of a trait whose path starts with the prefix (wherever the impl lives)
+        let by_trait = |pre: &str| -> bool {
+            if !matches!(tcx.def_kind(did), DefKind::AssocFn) {
+                return false;
+            }
+            let parent = tcx.parent(did);
+            if !matches!(tcx.def_kind(parent), DefKind::Impl { of_trait: true }) {
+                return false;
+            }
+            let tref = tcx.impl_trait_ref(parent).instantiate_identity().skip_norm_wip();
+            let name = format!("{}{}", tcx.crate_name(tref.def_id.krate), tcx.def_path(tref.def_id).to_string_no_crate_verbose());
+            name.starts_with(pre)
+        };
+        if pats.iter().any(|p| match p.strip_prefix("trait:") {
+            Some(pre) => by_trait(pre),
+            None => path.contains(p),
+        }) {
             roots.push((path, did));
         }
     }
